@@ -280,7 +280,9 @@ def run_kani(unit, cfg, text, scratch, jobs=8, only=None, playback=False):
     if playback:
         cmd += ["-Z", "concrete-playback", "--concrete-playback=print"]
     for h in (only or []):
-        cmd += ["--harness", h]
+        cmd += ["--harness", "harness::" + h if unit.tool == "kani" else h]
+    if only:
+        cmd += ["--exact"]
     r.cmd = "CARGO_NET_OFFLINE=true " + " ".join(cmd) + "  (crate generated from /repo, %d harnesses)" % len(r.obligations)
     env = dict(os.environ)
     env["CARGO_NET_OFFLINE"] = "true"
